@@ -267,6 +267,15 @@ class World:
             self.knob_objs[op[1]] = task
         elif k == "unregid":
             self.m.unregister(op[1])
+        elif k == "fsetset":
+            # first attempt with a fault injected at write #op[3] (the exception is caught by the caller), then the repeat
+            self.trace.reset(fail_at=op[3])
+            try:
+                self.assign(op[1], op[2])
+            except InjectedFault:
+                pass
+            self.trace.reset()
+            self.assign(op[1], op[2])
         elif k == "export":
             # another manager copies this manager's expressions (a query on this one; it may fill caches here)
             import xdeps
@@ -332,6 +341,8 @@ def op_str(op):
         return f"m.load({[(T.path_str(a), T.show(b)) for a, b in op[1]]!r}, overwrite={op[2]})"
     if k in ("freeze", "unfreeze"):
         return f"m.{k}_tree()"
+    if k == "fsetset":
+        return f"{T.path_str(op[1])} = {fmt_value(op[2])}   # first attempt fails at container write #{op[3]} (caught), then repeated"
     if k == "export":
         return "other_manager.copy_expr_from(m, 's')   # this manager is the source"
     if k == "genfun":
